@@ -197,7 +197,8 @@ pub fn spell_literal(v: &J, sp: &mut Spell) -> String {
             return spell_raw(s);
         }
     }
-    let txt = spell_json(v, sp);
+    // half of the time the canonical text (so that equal values have equal spellings)
+    let txt = if sp.src.is_some() && sp.chance(128) { v.to_json() } else { spell_json(v, sp) };
     spell_backtick(&txt)
 }
 
@@ -241,7 +242,18 @@ fn operand(e: &RefExpr, o: &mut Out) -> Result<(), Inexpressible> {
     }
 }
 
-fn num(n: i32) -> String {
+/// Leading zeros are part of the number token (`007`); a minus sign must be
+/// followed by 1-9, so only non-negative numbers have padded spellings.
+fn num(n: i32, sp: &mut Spell) -> String {
+    if n >= 0 && sp.chance(10) {
+        let zeros = match sp.below(4) {
+            0 => 1,
+            1 => 2 + sp.below(8),
+            2 => 9 + sp.below(4),
+            _ => 12 + sp.below(30),
+        };
+        return format!("{}{}", "0".repeat(zeros), n);
+    }
     n.to_string()
 }
 
@@ -249,15 +261,15 @@ fn slice_text(a: &Option<i32>, b2: &Option<i32>, c: &Option<i32>, o: &mut Out) {
     o.sp.marks.push((Mark::SliceBracket, o.pieces.len()));
     o.t("[");
     if let Some(x) = a {
-        o.t(&num(*x));
+        { let t = num(*x, o.sp); o.t(&t); }
     }
     o.t(":");
     if let Some(x) = b2 {
-        o.t(&num(*x));
+        { let t = num(*x, o.sp); o.t(&t); }
     }
     if let Some(x) = c {
         o.t(":");
-        o.t(&num(*x));
+        { let t = num(*x, o.sp); o.t(&t); }
     } else if o.sp.chance(40) {
         o.t(":");
     }
@@ -273,7 +285,7 @@ fn step(e: &RefExpr, o: &mut Out) -> Result<(), Inexpressible> {
         RefExpr::Index(Some(s), n) => {
             step(s, o)?;
             o.t("[");
-            o.t(&num(*n));
+            { let t = num(*n, o.sp); o.t(&t); }
             o.t("]");
             Ok(())
         }
@@ -308,13 +320,13 @@ fn expr(e: &RefExpr, o: &mut Out) -> Result<(), Inexpressible> {
         }
         R::Index(None, n) => {
             o.t("[");
-            o.t(&num(*n));
+            { let t = num(*n, o.sp); o.t(&t); }
             o.t("]");
         }
         R::Index(Some(s), n) => {
             operand(s, o)?;
             o.t("[");
-            o.t(&num(*n));
+            { let t = num(*n, o.sp); o.t(&t); }
             o.t("]");
         }
         R::Dot(s, st) => {
@@ -481,7 +493,7 @@ fn spine(e: &RefExpr, o: &mut Out) -> Result<(), Inexpressible> {
         }
         R::Index(None, n) => {
             o.t("[");
-            o.t(&num(*n));
+            { let t = num(*n, o.sp); o.t(&t); }
             o.t("]");
             Ok(())
         }
@@ -510,7 +522,7 @@ fn spine(e: &RefExpr, o: &mut Out) -> Result<(), Inexpressible> {
         R::Index(Some(s), n) => {
             spine(s, o)?;
             o.t("[");
-            o.t(&num(*n));
+            { let t = num(*n, o.sp); o.t(&t); }
             o.t("]");
             Ok(())
         }
